@@ -125,16 +125,23 @@ def public_state(obj):
     return out
 
 
-def ctor_state(obj):
+def ctor_state(obj, extra=None):
     """Constructor hyper-parameters: get_params for estimators, else the plain public
-    attributes that existed right after construction."""
+    attributes that existed right after construction. `extra`: names of public attributes
+    that existed right after construction but are hidden from get_params (VoronoiFPS takes
+    the inherited parameters through **kwargs) - None means 'collect them now'."""
     gp = getattr(obj, "get_params", None)
+    plain = {k: v for k, v in vars(obj).items() if not k.startswith("_") and not k.endswith("_")}
     if gp is not None:
         try:
-            return dict(gp(deep=True))
+            out = dict(gp(deep=True))
+            for k in (plain if extra is None else extra):
+                if k not in out and k in plain:
+                    out[k] = plain[k]
+            return out
         except Exception:  # noqa: BLE001
             pass
-    return {k: v for k, v in vars(obj).items() if not k.startswith("_") and not k.endswith("_")}
+    return plain
 
 
 def freeze(v, depth=0):
@@ -390,13 +397,13 @@ class PurityWorld:
         persist = obj is None
         obj = self.objs[name] if obj is None else obj
         try:
-            now = {k: freeze(v) for k, v in ctor_state(obj).items()}
+            now = {k: freeze(v) for k, v in ctor_state(obj, m.get("ctor_names", ())).items()}
         except Exception:  # noqa: BLE001
             return
         before = m["params0"]
         for k in sorted(set(before) | set(now)):
             if before.get(k) != now.get(k):
-                pv = ctor_state(obj).get(k)
+                pv = ctor_state(obj, m.get("ctor_names", ())).get(k)
                 extra = ""
                 b4, nw = before.get(k), now.get(k)
                 if isinstance(b4, tuple) and isinstance(nw, tuple) and b4[:1] == ("est",) and nw[:1] == ("est",) and b4[:3] == nw[:3]:
@@ -569,6 +576,7 @@ class PurityWorld:
             return
         self.objs[name] = obj
         raw = ctor_state(obj)
+        self.meta[name]["ctor_names"] = tuple(raw)
         self.meta[name]["params0_raw"] = {k: _copy_param(v) for k, v in raw.items()}
         self.meta[name]["params0"] = {k: freeze(v) for k, v in raw.items()}
         self.log.add("NEW", name, kind)
@@ -918,7 +926,7 @@ class PurityWorld:
             m["retired"] = True
             return
         m["params"] = dict(m["params"], **op["params"])
-        raw = ctor_state(obj)
+        raw = ctor_state(obj, m.get("ctor_names", ()))
         m["params0_raw"] = {k: _copy_param(v) for k, v in raw.items()}
         m["params0"] = {k: freeze(v) for k, v in raw.items()}
         m["reparam"] = sorted(op["params"])
